@@ -12,11 +12,17 @@ LEVEL_TEXT = ("Theorems, for every ngeom and all arrays: `upper_tri_index` (rege
               "twice (such a pair has no table slot: NotImplementedError), masks whose AND has bit 31 set (negative int32) pass the mask test (`sign_bit_mask_passes`), and for EVERY accepted model the table has at idx(g1,g2) the id of the last explicit pair listing {g1,g2}, else -1 iff the "
               "geoms pass contype/conaffinity (non-zero AND of the 32-bit masks, bit 31 included), lie on different weld bodies, are not parent and child (unless filterparent is off) and are not excluded, else -2; this equals the property's rule for "
               "compiled models; filtered entries are never written by write_contact / never enter the NXN list / are skipped by the SAP gate; explicit pairs use the pair's "
-              "margin/gap/condim/friction/solref/solimp. The reported contact pairs are compared with mujoco.mj_collision; models with a self pair must be rejected by put_model.")
+              "margin/gap/condim/friction/solref/solimp. The reported contact pairs are compared with mujoco.mj_collision; models with a self pair must be rejected by put_model. "
+              "3 of every 8 generated models are forced chains with jointless (welded) bodies below jointed ones (geoms on a jointless body at depth >= 3, runs of jointless bodies, jointed children of "
+              "jointless bodies, bodies welded to the world; filterparent on, every 5th off) with all geoms overlapping and mostly permissive masks, so the parent/child filter through WELD bodies "
+              "decides whether mj_collision reports a contact.")
 TECHNIQUE = ("Lean 4 theorems over a hand-written model of put_model's pair table (Model/PairFilter.lean) tied to the real put_model by a line-protocol correspondence on every run (tables of accepted models, and "
              "NotImplementedError <-> rejection for self pairs), plus theorems over kernels regenerated from source; oracle mujoco.mj_collision")
 LEVEL_NOTE = ("C19_partial: the NumPy block is modelled by hand (correspondence-checked; the generated models rotate through 2-bit masks, masks with bit 31 set (-1, -2147483648, mixed) and "
-              "all-geoms-overlapping layouts, so a sign-sensitive mask test in put_model breaks both the table correspondence and the mj_collision comparison on every seed). This check found that put_model wrote an explicit contact pair of a geom with itself into the table slot of an "
+              "all-geoms-overlapping layouts, so a sign-sensitive mask test in put_model breaks both the table correspondence and the mj_collision comparison on every seed; forced welded chains "
+              "(cc.WELD_PATTERNS, all geoms overlapping) make a parent/child filter that uses the parent of the geom's own body, the unwelded parent of the weld body or plain body parent/child a concrete "
+              "mj_collision pair-set failure on every seed - 40+ overlapping pairs per run on which each of these rules differs from MuJoCo's are counted in `hits`; before, geoms of different bodies were 1 m apart "
+              "in half of the models and only the table correspondence could see such a change). This check found that put_model wrote an explicit contact pair of a geom with itself into the table slot of an "
               "unrelated geom pair; repaired in /repo (6cb912c \"fix: put_model wrote an explicit contact pair of a geom with itself into another pair's table slot\": such pairs are rejected), the "
               "table theorem now holds for every accepted model without a distinctness hypothesis and the old witness is deleted. Still present: duplicated pairs over the same two geoms deviate "
               "from MuJoCo (C19Witness; known finding C19-duplicate-pair). Trusted: Lean kernel, tier-A/B translator, correspondence harness.")
@@ -46,6 +52,47 @@ def _with_self_pair(rng, xml):
   return xml.replace("<contact>", "<contact>" + pair) if rng.random() < 0.5 else xml.replace("</contact>", pair + "</contact>")
 
 
+def _weld_hits(acc, mjm, mjd, mult, wset):
+  """vacuity counters only (no findings): which geom pairs that pass masks / excludes / same-weld-body are decided by the
+  parent/child rule on WELD bodies, how many of them a rule on the wrong body (parent of the geom's own body; parent of the weld
+  body without welding it; plain body parent/child) would decide differently, and whether those geoms overlap - only then does the
+  comparison with mj_collision see the decision (filterparent on: MuJoCo reports no contact for an overlapping pair)"""
+  import mujoco
+  fp = not (mjm.opt.disableflags & mujoco.mjtDisableBit.mjDSBL_FILTERPARENT)
+  bw, bp, gb = mjm.body_weldid, mjm.body_parentid, mjm.geom_bodyid
+  ct, ca = mjm.geom_contype.astype(np.int64), mjm.geom_conaffinity.astype(np.int64)
+  excl = set(int(e) for e in mjm.exclude_signature)
+  if any(bw[b] != b for b in range(1, mjm.nbody)):
+    acc.hit("model-with-welded-body")
+  if any(bw[b] != b and bw[b] != 0 and bw[bp[bw[b]]] != 0 for b in range(1, mjm.nbody)):
+    acc.hit("model-with-welded-body-whose-weld-parent-is-not-world")
+
+  def rule(w1, p1, w2, p2):
+    return bool(w1 != 0 and w2 != 0 and (w1 == p2 or w2 == p1))
+
+  for g1 in range(mjm.ngeom):
+    for g2 in range(g1 + 1, mjm.ngeom):
+      b1, b2 = int(gb[g1]), int(gb[g2])
+      w1, w2 = int(bw[b1]), int(bw[b2])
+      if (g1, g2) in mult or w1 == w2 or not ((ct[g1] & ca[g2]) | (ct[g2] & ca[g1])) or ((min(b1, b2) << 16) + max(b1, b2)) in excl:
+        continue
+      ref = rule(w1, int(bw[bp[w1]]), w2, int(bw[bp[w2]]))
+      alts = {"parent-of-own-body": rule(w1, int(bw[bp[b1]]), w2, int(bw[bp[b2]])),
+              "unwelded-parent-of-weld-body": rule(w1, int(bp[w1]), w2, int(bp[w2])),
+              "plain-body-parent": rule(b1, int(bp[b1]), b2, int(bp[b2]))}
+      overlap = float(np.linalg.norm(mjd.geom_xpos[g1] - mjd.geom_xpos[g2])) < float(mjm.geom_size[g1, 0] + mjm.geom_size[g2, 0])
+      if ref:
+        acc.hit("weld-parent/child-pair" + ("" if fp else "(filterparent off)"))
+        if b1 != w1 or b2 != w2:
+          acc.hit("weld-parent/child-pair-with-geom-on-welded-body" + ("" if fp else "(filterparent off)"))
+      for name, alt in alts.items():
+        if alt != ref:
+          acc.hit(f"pair-where-{name}-rule-differs")
+          if fp and overlap:
+            # the decision is visible to the mj_collision comparison: contact iff not filtered
+            acc.hit(f"overlapping-pair-where-{name}-rule-differs:" + ("mujoco-contact" if (g1, g2) in wset else "mujoco-filtered"))
+
+
 def _run(ctx, ncases, with_model):
   import mujoco
   import mujoco_warp as mjw
@@ -58,8 +105,9 @@ def _run(ctx, ncases, with_model):
   for c in range(ncases):
     # mask mode in rotation (2-bit masks / masks with bit 31 / mixed); every second case has all geoms overlapping, which covers
     # both bit-31 modes, so that the pairs the masks let through are seen by mj_collision as well as by the table comparison
-    mode, tight = cc.MASK_MODES[c % 4], c % 2 == 1
-    xml = cc.gen(rng, mode, tight)
+    # 3 of every 8 cases (all of them "all geoms overlap" ones) are forced welded chains: the parent/child filter through weld bodies
+    mode, tight, weld = cc.MASK_MODES[c % 4], c % 2 == 1, cc.weld_rotation(c)
+    xml = cc.gen(rng, mode, tight, weld)
     if c % 4 == 2:
       # regression input of the repaired defect (every 4th case - a 2-bit-mask one, the bit-31 cases stay available for the
       # collision comparison - besides the self pairs the generator draws itself)
@@ -144,6 +192,9 @@ def _run(ctx, ncases, with_model):
           acc.hit("mujoco-contact-with-" + kind + "-mask-intersection")
     if any(a > b for a, b in pairs):
       acc.hit("reversed-pair")
+    if weld is not None:
+      acc.hit("forced-welded-chain:" + cc.WELD_PATTERNS[weld % len(cc.WELD_PATTERNS)])
+    _weld_hits(acc, mjm, mjd, mult, wset)
     acc.sample({"ngeom": int(mjm.ngeom), "npair": int(mjm.npair), "nexclude": int(mjm.nexclude), "pairs": want[:5]})
   disagreements = []
   if with_model and lines:
@@ -156,7 +207,9 @@ def _run(ctx, ncases, with_model):
 
 RULE = ("random body trees (welded bodies, 0-2 geoms per body; contype/conaffinity in rotation: 2-bit masks, 32-bit masks with bit 31 set (-1, -2147483648, bit 31 plus low bits, -2, also 2^31-1), "
         "both mixed per value), 0-3 explicit pairs (incl. reversed, duplicated, and - drawn at random plus forced in every 4th case - "
-        "self pairs), 0-3 excludes, filterparent on/off, every second case (covering both bit-31 modes) with all geoms overlapping; (a) the real put_model vs the Lean transcription (line protocol): the table for accepted models, NotImplementedError <-> "
+        "self pairs), 0-3 excludes, filterparent on/off, every second case (covering both bit-31 modes) with all geoms overlapping; 3 of every 8 cases (overlapping ones, bit-31 and mixed masks) are forced "
+        "welded chains world-b1-b2-.. with joint patterns jjn jjnn jnj jjnjn jjnj jnnj njjn jjjn jnjn (n = jointless body welded into its parent) plus 0-2 side bodies, 1-2 geoms per body, masks permissive with "
+        "p 0.75, <= 1 explicit pair (sometimes duplicated) / exclude, filterparent on except every 5th; hits count the pairs decided by the weld parent/child rule and those where a rule on the wrong body would differ; (a) the real put_model vs the Lean transcription (line protocol): the table for accepted models, NotImplementedError <-> "
         "NOTIMPL for models with a self pair, (b) accepted models: the colliding pairs vs mujoco.mj_collision; a self pair that put_model accepts is a finding; distinct = cases with contacts + "
         "distinct rejected pair lists")
 
